@@ -20,7 +20,7 @@ CFG = {
         "Swat4.C15.refresh_pred",
         "Swat4.C15.revive_pred",
     ],
-    "shards": (1, 16),
+    "shards": (4, 16),
     "nontrivial": _nontrivial,
     "rule": "registries of 0..12 servers planted through the real repository with arbitrary status words (all 512 reachable) and refresh "
             "times around now-scope and now-interval (at the bound and +-256ns) or never refreshed, optionally a pre-queued probe; one real "
